@@ -12,9 +12,10 @@ def run(ctx):
     rb = lambda n: bytes(rnd.randrange(256) for _ in range(n))
     keys = [bytes(8), b'\xff' * 8] + [bytes.fromhex(x) for x in ('0101010101010101', 'fefefefefefefefe', 'e0e0e0e0f1f1f1f1', '1f1f1f1f0e0e0e0e', '01fe01fe01fe01fe', 'e01fe01ff10ef10e')]
     keys += [bytes.fromhex('133457799bbcdff1'), bytes.fromhex('123456788abcdef0')]          # differ only in parity bits
+    twins = [bytes.fromhex('0123456789abcdef'), bytes.fromhex('8123456789abcdef'), bytes(8), b'\x80' * 8, bytes.fromhex('01a3c5e789abcdef'), bytes.fromhex('0123456709abcd6f')]   # differ only in the top bit of some key bytes
     nk = 150 if big else 8
     walk = [(1 << p).to_bytes(8, 'big') for p in rnd.sample(range(64), 20 if big else 2)]
-    keys = (keys + walk + [rb(8) for _ in range(200)])[:nk] if big else (keys[:2] + keys[8:10] + walk[:1] + [keys[4], rb(8), rb(8)])
+    keys = (keys + twins + walk + [rb(8) for _ in range(200)])[:nk] if big else (keys[:2] + keys[8:10] + twins[:4] + walk[:1] + [keys[4], rb(8)])
     traces = []; cur = []
     for ki, K in enumerate(keys):
         e = dict(op='wb_tables', key=B(K), raised='', shape={}, indep={})
